@@ -1,11 +1,12 @@
 """C10 - results independent of evaluation order/history; returned values and inputs not mutated."""
 from .common import Decision, run_units
 from .series_props import specs_evals, specs_wiring, specs_product, specs_index, fold_canaries
+from .format_props import specs_keys
 
 
 def check(tier, seed):
     d = Decision("C10", tier, seed)
-    specs = specs_index(tier) + specs_product(tier) + specs_evals(tier) + specs_wiring(tier) + [("contracts.frame", "unit_frame", {})]
+    specs = specs_index(tier) + specs_product(tier) + specs_evals(tier) + specs_wiring(tier) + [("contracts.frame", "unit_frame", {})] + specs_keys(tier)
     d.add_units(fold_canaries(run_units(specs)))
     d.assumptions += [
         "user callbacks (Hamiltonian evaluation, custom solve_sylvester, element multiplication) are deterministic and do not mutate their arguments (as in the statement of C10)",
@@ -15,6 +16,9 @@ def check(tier, seed):
     d.explanation = ("History independence = cache invariant: every cached entry is in flight or denotes val(series, index), val being a function "
                      "of the inputs only (evaluators, products and wrappers are proved to denote their equations; deletions are proved never to "
                      "remove start data or an in-flight entry).  No-mutation = frame obligations: one per store site of every function under "
-                     "contract (pyvc/effects.py), plus aliasing obligations on in-place updates inside the symbolic execution.")
+                     "contract (pyvc/effects.py), plus aliasing obligations on in-place updates inside the symbolic execution, plus the input-not-mutated "
+                     "postconditions of the format converters (_list_to_dict, _dict_to_BlockSeries works on a copy, _symbolic_keys_to_tuples).")
+    d.run_battery("bd_battery.py", ["inputs_untouched"], "list / dict (tuple and monomial keys) / BlockSeries inputs with dense, diagonal-dense, csr, coo, dia values: entries of the caller's "
+                  "containers are the same objects with the same contents after defining and evaluating the result to order 3")
     d.run_battery("series_battery.py", ['history', 'fault', 'index'], "shapes <= (2,3), <= 2 infinite dimensions, orders <= 3, fixed list of index entries, 4x4 two-block problems; see replay/series_battery.py")
     return d.finish(level="proof", trusted_base=["contracts/series_index.py", "contracts/series_product.py", "contracts/algorithm_evals.py", "contracts/frame.py", "pyvc/effects.py"])
